@@ -130,6 +130,36 @@ def staticRespCalls : List (String × String) :=
 theorem static_response_call_sites_match_source :
     (callSitesOf "staticresp.go").isPerm staticRespCalls = true := by decide
 
+/-! ### autohttps.go: provision-time look at the host matchers -/
+
+/-- **`hostLive false` matches the source**: automatic HTTPS phase 1 reads the host patterns
+    (`ReplaceOrErr` into the loop variable) and stores nothing through the matcher it walks — the live
+    matcher keeps the configured patterns (`HostGlue.hostLive`).  seeded/C18-autohttps-writes-expanded-host-back
+    adds the store `(*hm)[hostMatcherIdx]` and breaks this without any sampled case. -/
+theorem autohttps_phase1_does_not_store_into_host_matchers_matches_source :
+    Gen.autoHTTPSHostMatcherStores = [] := by decide
+
+/-- **where configuration fields meet the replacer around provisioning** (modules/caddyhttp: autohttps.go,
+    matchers.go, caddyauth/basicauth.go, app.go), with the function the call sits in: phase 1 of automatic HTTPS
+    expands the host pattern into its loop variable `d` (provision time, `HostGlue.hostProvisionName`), the host
+    matcher expands `host` per request (`HostGlue.hostMatchOne`) — these two are the only pair on one field;
+    basic-auth account names / passwords and listener addresses are expanded in `Provision` only, the other
+    matchers per request only.  A new call (say, of an account name in `Authenticate`, or of a provisioned value
+    per request) breaks this without any sampled case. -/
+def provisionCallTable : List (String × String × String × String) := [
+  ("autohttps.go", "automaticHTTPSPhase1", "ReplaceOrErr", "d"),
+  ("matchers.go", "MatchWithError", "ReplaceAll", "host"),              -- MatchHost
+  ("matchers.go", "MatchWithError", "ReplaceAll", "matchPattern"),      -- MatchPath
+  ("matchers.go", "MatchWithError", "ReplaceAll", "param"),             -- MatchQuery
+  ("matchers.go", "MatchWithError", "ReplaceAll", "v"),
+  ("matchers.go", "matchHeaders", "ReplaceAll", "allowedFieldVal"),     -- MatchHeader
+  ("basicauth.go", "Provision", "ReplaceAll", "acct.Username"),
+  ("basicauth.go", "Provision", "ReplaceAll", "acct.Password"),
+  ("app.go", "Provision", "ReplaceOrErr", "srv.Listen[i]")]
+
+theorem provision_call_sites_match_source :
+    Gen.provisionReplacerCallSites.isPerm provisionCallTable = true := by decide
+
 /-- no other file is in the fact: the five tables account for every row -/
 theorem call_site_files_are_the_modelled_ones :
     Gen.replacerCallSites.all (fun r => ["map.go", "headers.go", "rewrite.go", "vars.go", "staticresp.go"].contains r.1) = true := by
